@@ -116,6 +116,21 @@ for _n in STRUCT_LINKED:
 T19 = type("T19", (EBPFTerminal,), dict(ATTRS))
 
 
+def _other_revision():
+    """the PDO table of another terminal of the same class (another
+    revision / another configured mapping): every entry keeps its place but
+    has another width or bit number"""
+    wider = {"B": "H", "H": "I", "I": "Q", "Q": "B"}
+    out = {}
+    for key, (sm, off, size) in PDOS.items():
+        out[key] = (sm, off, (size + 3) % 8 if isinstance(size, int)
+                    else wider[size])
+    return out
+
+
+PDOS_B = _other_revision()
+
+
 class _Other(EBPFTerminal):
     o = PacketDesc(OUT, 0, "H")
     i = PacketDesc(IN, 1, "B")
@@ -258,6 +273,18 @@ class Case:
         self.layout, self.names, self.ops, self.consts = \
             layout, names, ops, consts
         fastsim.reset_globals()
+        if layout.endswith("|revB"):
+            # history: a terminal of the same class with another PDO table
+            # had the same variables resolved before in this process
+            layout = layout[:-5]
+            tb = fastsim.fake_terminal(fastsim.new_ec(), T19, 9, REGION,
+                                       REGION, True, PDOS_B,
+                                       in_off=0x1100, out_off=0x1000)
+            for name in names:
+                try:
+                    resolve(tb, name)
+                except Exception:
+                    pass
         # ---- python path
         ec = fastsim.new_ec()
         terms, tut = build_terminals(ec, layout)
@@ -520,6 +547,9 @@ def work(item, res):
 def run(ctx):
     layouts = list(LAYOUTS)[:3] if ctx.quick else list(LAYOUTS)
     items = single_items(ctx, layouts) + multi_items(ctx, layouts)
+    # every single-variable case also with a history (see Case)
+    items += single_items(ctx, [l + "|revB" for l in layouts[:1 if ctx.quick
+                                                            else 3]])
     if ctx.quick:
         # the first layout carries everything; the others a seed-rotated third
         items = [it for n, it in enumerate(items)
